@@ -123,41 +123,48 @@ Section Loops.
       knn_select (nltb O) f0 accs = snd (fold_left ksel_step (combine (seq 1 (length accs)) accs) (f0, Some 1)).
     Proof. reflexivity. Qed.
 
+    (* [Pa]: any property of the criterion of a candidate *)
+    Variable Pa : F -> Prop.
+    Hypothesis HPa : forall k g, Pa (fst (cand k g)).
+
     Lemma learn_fold : forall m s g accs0 mx b,
       sup_state g ->
       exists g' new mx' b',
         fold_left lstep (seq s m) (g, accs0, mx, b) = (g', accs0 ++ new, mx', b') /\
-        sup_state g' /\ length new = m /\
+        sup_state g' /\ length new = m /\ (forall a, In a new -> Pa a) /\
         fold_left ksel_step (combine (seq s m) new) (mx, Some b) = (mx', Some b') /\
         (b' = b \/ s <= b' < s + m).
     Proof.
       induction m as [|m IH]; intros s g accs0 mx b Hg; cbn [seq fold_left].
       - exists g, [], mx, b. rewrite app_nil_r.
-        split; [reflexivity|]. split; [exact Hg|]. split; [reflexivity|]. split; [reflexivity|now left].
+        split; [reflexivity|]. split; [exact Hg|]. split; [reflexivity|]. split; [intros a []|].
+        split; [reflexivity|now left].
       - unfold learn_step at 2.
-        pose proof (sup_candidate_state s g Hg) as Hg1.
-        destruct (cand s g) as [acc g1]. cbn [snd] in Hg1.
+        pose proof (sup_candidate_state s g Hg) as Hg1. pose proof (HPa s g) as Hpa.
+        destruct (cand s g) as [acc g1]. cbn [fst snd] in Hg1, Hpa.
         destruct (nltb O mx acc) eqn:E.
-        + destruct (IH (S s) g1 (accs0 ++ [acc]) acc s Hg1) as (g' & new & mx' & b' & E1 & E2 & E3 & E4 & E5).
+        + destruct (IH (S s) g1 (accs0 ++ [acc]) acc s Hg1) as (g' & new & mx' & b' & E1 & E2 & E3 & EP & E4 & E5).
           exists g', (acc :: new), mx', b'. rewrite E1, <- app_assoc. cbn [app length combine fold_left ksel_step snd fst].
-          rewrite E. split; [reflexivity|]. split; [exact E2|]. split; [now rewrite E3|]. split; [exact E4|].
+          rewrite E. split; [reflexivity|]. split; [exact E2|]. split; [now rewrite E3|].
+          split; [intros a [<-|Ha]; [exact Hpa|now apply EP]|]. split; [exact E4|].
           destruct E5 as [->|H]; right; lia.
-        + destruct (IH (S s) g1 (accs0 ++ [acc]) mx b Hg1) as (g' & new & mx' & b' & E1 & E2 & E3 & E4 & E5).
+        + destruct (IH (S s) g1 (accs0 ++ [acc]) mx b Hg1) as (g' & new & mx' & b' & E1 & E2 & E3 & EP & E4 & E5).
           exists g', (acc :: new), mx', b'. rewrite E1, <- app_assoc. cbn [app length combine fold_left ksel_step snd fst].
-          rewrite E. split; [reflexivity|]. split; [exact E2|]. split; [now rewrite E3|]. split; [exact E4|].
+          rewrite E. split; [reflexivity|]. split; [exact E2|]. split; [now rewrite E3|].
+          split; [intros a [<-|Ha]; [exact Hpa|now apply EP]|]. split; [exact E4|].
           destruct E5 as [->|H]; [now left|right; lia].
     Qed.
 
     Theorem knn_sup_learn_spec max_k g accs mx best :
       knn_sup_learn O fmax thr one eps maxd d dq vlabels ep eq labels max_k = (g, accs, mx, best) ->
-      sup_state g /\ length accs = max_k /\ knn_select (nltb O) f0 accs = Some best /\
-      (best = 1 \/ 1 <= best <= max_k).
+      sup_state g /\ length accs = max_k /\ (forall a, In a accs -> Pa a) /\
+      knn_select (nltb O) f0 accs = Some best /\ (best = 1 \/ 1 <= best <= max_k).
     Proof.
       unfold knn_sup_learn. intros H.
       destruct (learn_fold max_k 1 (knn_init f0 labels) [] f0 1 sup_state_init)
-        as (g' & new & mx' & b' & E1 & E2 & E3 & E4 & E5).
+        as (g' & new & mx' & b' & E1 & E2 & E3 & EP & E4 & E5).
       rewrite E1 in H. cbn [app] in H. injection H as <- <- <- <-.
-      split; [exact E2|]. split; [exact E3|]. split.
+      split; [exact E2|]. split; [exact E3|]. split; [exact EP|]. split.
       - rewrite knn_select_fold, E3, E4. reflexivity.
       - destruct E5 as [->|H]; [now left|right; lia].
     Qed.
@@ -286,39 +293,45 @@ Section Loops.
         fold_left csel_step (combine (seq s (length new)) new) (mn, b, ev) = (mn', b', ev + length new) /\
         (length new = m \/ neqb O mn' f0 = true) /\
         (forall c, In c new -> P c) /\
-        (b' = b \/ exists k, b' = Some k /\ s <= k < s + m).
+        (b' = b \/ exists k, b' = Some k /\ s <= k < s + m) /\
+        (neqb O mn' f0 = true -> neqb O mn f0 = true \/ exists pre, new = pre ++ [mn']).
     Proof.
       induction m as [|m IH]; intros s g cuts0 mn b ev Hg; cbn [seq].
       - exists g, [], mn, b. rewrite app_nil_r. cbn [fold_left length combine seq].
         split; [reflexivity|]. split; [exact Hg|]. split; [lia|]. split; [now rewrite Nat.add_0_r|].
-        split; [now left|]. split; [intros c []|now left].
+        split; [now left|]. split; [intros c []|]. split; [now left|]. intros Hz; now left.
       - destruct (neqb O mn f0) eqn:E.
         + exists g, [], mn, b. rewrite app_nil_r, search_stopped by exact E. cbn [fold_left length combine seq].
           split; [reflexivity|]. split; [exact Hg|]. split; [lia|]. split; [now rewrite Nat.add_0_r|].
-          split; [now right|]. split; [intros c []|now left].
+          split; [now right|]. split; [intros c []|]. split; [now left|]. intros _; now left.
         + cbn [fold_left]. unfold cut_search_step at 2. rewrite E.
           destruct (unsup_candidate_state s g Hg) as (Hg1 & gc & Ec & Hn).
           destruct (ucand s g) as [cut g1]. cbn [fst snd] in Hg1, Ec.
           assert (Pc : P cut) by (rewrite Ec; now apply HP).
           destruct (nltb O cut mn) eqn:E2.
           * destruct (IH (S s) g1 (cuts0 ++ [cut]) cut (Some s) (S ev) Hg1)
-              as (g' & new & mn' & b' & E1 & S1 & L1 & C1 & D1 & P1 & B1).
-            exists g', (cut :: new), mn', b'. rewrite E1, <- app_assoc.
+              as (g' & new & mn' & b' & E1 & S1 & L1 & C1 & D1 & P1 & B1 & Z1).
+            exists g', (cut :: new), mn', b'. pose proof E1 as E1'. rewrite E1, <- app_assoc.
             cbn [app length seq combine fold_left csel_step fst snd]. rewrite <- Heq, E, E2.
             split; [reflexivity|]. split; [exact S1|]. split; [lia|].
             split; [rewrite C1; f_equal; lia|].
             split; [destruct D1 as [D1|D1]; [left; lia|now right]|].
             split; [intros c [<-|Hc]; [exact Pc|now apply P1]|].
-            right. destruct B1 as [->|(k & -> & Hk)]; [exists s; split; [reflexivity|lia]|exists k; split; [reflexivity|lia]].
+            split; [right; destruct B1 as [->|(k & -> & Hk)]; [exists s; split; [reflexivity|lia]|exists k; split; [reflexivity|lia]]|].
+            intros Hz. right. destruct (Z1 Hz) as [Hc|[pre ->]]; [|exists (cut :: pre); reflexivity].
+            rewrite search_stopped in E1' by exact Hc. injection E1' as _ Hnw Hm _.
+            rewrite <- (app_nil_r (cuts0 ++ [cut])) in Hnw at 1. apply app_inv_head in Hnw. subst new mn'.
+            exists []. reflexivity.
           * destruct (IH (S s) g1 (cuts0 ++ [cut]) mn b (S ev) Hg1)
-              as (g' & new & mn' & b' & E1 & S1 & L1 & C1 & D1 & P1 & B1).
+              as (g' & new & mn' & b' & E1 & S1 & L1 & C1 & D1 & P1 & B1 & Z1).
             exists g', (cut :: new), mn', b'. rewrite E1, <- app_assoc.
             cbn [app length seq combine fold_left csel_step fst snd]. rewrite <- Heq, E, E2.
             split; [reflexivity|]. split; [exact S1|]. split; [lia|].
             split; [rewrite C1; f_equal; lia|].
             split; [destruct D1 as [D1|D1]; [left; lia|now right]|].
             split; [intros c [<-|Hc]; [exact Pc|now apply P1]|].
-            destruct B1 as [->|(k & -> & Hk)]; [now left|right; exists k; split; [reflexivity|lia]].
+            split; [destruct B1 as [->|(k & -> & Hk)]; [now left|right; exists k; split; [reflexivity|lia]]|].
+            intros Hz. right. destruct (Z1 Hz) as [Hc|[pre ->]]; [congruence|exists (cut :: pre); reflexivity].
     Qed.
   End Unsup.
 
@@ -332,7 +345,8 @@ Section Loops.
     cut_select (nltb O) f0 fmax min_k cuts = (best, length cuts) /\
     (length cuts = S max_k - min_k \/ neqb O mn f0 = true) /\
     (forall c, In c cuts -> P c) /\
-    (best = None \/ exists k, best = Some k /\ min_k <= k < min_k + (S max_k - min_k)).
+    (best = None \/ exists k, best = Some k /\ min_k <= k < min_k + (S max_k - min_k)) /\
+    (neqb O mn f0 = true -> neqb O fmax f0 = true \/ exists pre, cuts = pre ++ [mn]).
   Proof.
     intros HP. unfold unsup_search.
     destruct (create_arcs_keeps (nltb O) f0 fmax thr one max_k (length labels) d (knn_init f0 labels)) as [_ [K Kp]].
@@ -341,10 +355,10 @@ Section Loops.
     assert (S0 : unsup_state labels g0).
     { constructor; [exact (shaped_keeps _ _ _ (shaped_init labels) K)|exact Kp]. }
     destruct (search_fold d ep min_k maxdists labels Heq P HP (S max_k - min_k) min_k g0 [] fmax None 0 S0)
-      as (g' & new & mn' & b' & E1 & S1 & L1 & C1 & D1 & P1 & B1).
+      as (g' & new & mn' & b' & E1 & S1 & L1 & C1 & D1 & P1 & B1 & Z1).
     rewrite E1 in H. cbn [app] in H. injection H as <- <- <- <-.
     split; [exact S1|]. split; [exact L1|]. split; [rewrite cut_select_fold, C1; reflexivity|].
-    split; [exact D1|]. split; [exact P1|exact B1].
+    split; [exact D1|]. split; [exact P1|]. split; [exact B1|exact Z1].
   Qed.
 
   (* the final stage on the searched graph = the final stage on [fit_start], related by [csim] *)
